@@ -90,6 +90,7 @@ class Ctx:
         self.bvdecls = []        # the same for the bit-vector rendering (inputs only)
         self.products = {}       # (smt_a, smt_b) -> V
         self.divisions = []      # (dividend, divisor, exact truncated quotient) of every modelled primitive division
+        self.int_invalid = False # set when a term has no integer rendering (symbolic shift amounts)
         self.wide_divisions = [] # (divisor, dividend hi, dividend lo, quotient hi, quotient lo) of every abstracted wide division
         self.obligations = []    # (path conditions, condition that must hold, message, function)
         self.exact_products = exact_products
@@ -191,6 +192,23 @@ class Ctx:
         if a.bv and k & (k - 1) == 0:
             bv = "(bvand %s %s)" % (a.bv, bvlit(k - 1))
         return V(smt="(mod %s %s)" % (a.smt, lit(k)), lo=0, hi=k - 1, tz=min(a.tz, tzc(k)), bv=bv)
+
+    def sym_shift(self, a, amt, ty, left):
+        """shift by a symbolic amount: only the bit-vector rendering can express it (the amount is masked to the width, as
+        MIR's Shl/Shr do; rustc's overflow assert precedes them).  The integer rendering becomes unusable."""
+        s, w = INT_TYPES[ty]
+        if a.bv is None or amt.bv is None:
+            raise Unsupported("symbolic shift amount without a bit-vector rendering")
+        self.int_invalid = True
+        self.nfresh += 1
+        m = "(bvand %s %s)" % (amt.bv, bvlit(w - 1))
+        if left:
+            bv = "(bvshl %s %s)" % (a.bv, m)
+            v = V(smt="SYMSHIFT_%d" % self.nfresh, lo=-(1 << (WBV - 2)), hi=(1 << (WBV - 2)), bv=bv)
+            return self.wrap(v, ty)
+        lo, hi = ty_range(ty)
+        bv = "(bvashr %s %s)" % (a.bv, m)   # values are kept in two's complement within WBV bits: arithmetic shift = floor
+        return V(smt="SYMSHIFT_%d" % self.nfresh, lo=min(a.lo, 0) if a.lo is not None else lo, hi=max(a.hi, 0) if a.hi is not None else hi, bv=bv)
 
     def wrap(self, a, ty):
         lo, hi = ty_range(ty)
@@ -448,8 +466,12 @@ class Exec:
         if op in ("Mul", "MulUnchecked"):
             return c.wrap(c.mul(a, b), ty)
         if op in ("Shr", "ShrUnchecked"):
+            if not b.is_c():
+                return c.sym_shift(a, b, ty, left=False)
             return c.divc(a, 1 << self.shift_amount(b, w))
         if op in ("Shl", "ShlUnchecked"):
+            if not b.is_c():
+                return c.sym_shift(a, b, ty, left=True)
             k = self.shift_amount(b, w)
             return c.wrap(c.mulc(a, 1 << k), ty)
         if op == "BitAnd":
